@@ -20,7 +20,11 @@ LEVEL = 'exploration'
 RULE = (
     'cases = one kernel call (direct) or one convert() pipeline (in situ) with log-uniform '
     'SI magnitudes 1e-9..1e9, random unit per operand, dtype class, shape class '
-    '(scalar/1-d/2-d broadcast/per-pixel/binned) and forced angle classes; a case is '
+    '(scalar/1-d/2-d broadcast/per-pixel/transposed/binned, and the layouts with operands on different, '
+    'non-nested dims: every operand on a dim of its own, 2-d operands that pairwise share one dim, 2-d bins with '
+    'Ltotal and two_theta along different bin dims, bins broadcast along geometry dims, random subsets of 4 '
+    'dims; each forced once per kernel and shard, with the alternative route on the same operands; in situ: '
+    'Ltotal[setting] x two_theta[pixel] coordinates, dense and binned) and forced angle classes; a case is '
     'non-trivial unless scalar+SI+float64; distinct = distinct (kernel, dtypes, units, '
     'shape class, magnitude band) signatures'
 )
@@ -111,12 +115,30 @@ def judge_kernel(ctx, kernel, args, res, exc, origin):
                       kernel=kernel)
         return
     data = args[DATA_OPERAND[kernel]]
-    if ops.is_binned(data) and (not ops.is_binned(res) or res.dims != data.dims
-                                or not np.array_equal(ops.bin_sizes(res), ops.bin_sizes(data))):
-        ctx.violation('bin_layout', f'{kernel}: the result does not have the bins of its event operand '
-                      f'(sizes {ops.bin_sizes(data).tolist()[:6]} -> '
-                      f'{ops.bin_sizes(res).tolist()[:6] if ops.is_binned(res) else "dense"})', case, kernel=kernel)
-        return
+    if ops.is_binned(data):
+        # the result has the bins of the event operand; where a geometry operand sits on a dim the event
+        # operand lacks, scipp broadcasts the bins along it (every copy keeps the sizes of its original)
+        want_dims = ops.union_dims(*[args[n] for n in names])
+        ok = ops.is_binned(res) and set(res.dims) == want_dims
+        if ok:
+            try:
+                if res.dims == data.dims:
+                    like = data
+                elif set(res.dims) == set(data.dims):
+                    like = data.transpose(res.dims)
+                else:
+                    like = sc.broadcast(data, dims=res.dims, shape=res.shape)
+                want_sizes = ops.bin_sizes(like)
+            except Exception:  # noqa: BLE001
+                ctx.oracle_error(f'C01 {kernel} bin layout')
+                return
+            ok = np.array_equal(ops.bin_sizes(res), want_sizes)
+        if not ok:
+            ctx.violation('bin_layout', f'{kernel}: the result does not have the bins of its event operand '
+                          f'(dims {data.dims} sizes {ops.bin_sizes(data).tolist()[:6]} -> '
+                          + (f'dims {res.dims} sizes {ops.bin_sizes(res).tolist()[:6]}' if ops.is_binned(res)
+                             else 'dense') + f'; expected dims {sorted(want_dims)})', case, kernel=kernel)
+            return
     try:
         cls32 = ops.elem_dtype(data) == sc.DType.float32
         # mixed precision: a single-precision geometry operand limits the attainable
@@ -221,7 +243,48 @@ def _as_unit(x_si, unit):
     return x_si / float(si.lookup(sc.Unit(unit))[0])
 
 
-SHAPES = ['scalar', '1d', '2d_broadcast', 'per_pixel_2d', 'binned', 'transposed_2d']
+# layouts in which the operands sit on different dims that are not nested in one another: scipp broadcasts to
+# the union of the dims (outer product) and the definition holds element by element
+#   outer_1d      every operand on a dim of its own            (tof[tof], Ltotal[setting], two_theta[pixel])
+#   outer_2d      2-d operands that pairwise share one dim     (x[pixel,tof], Ltotal[pixel,setting], two_theta[tube,pixel])
+#   binned_2d     2-d bins, geometry along different bin dims  (x[setting,pixel] binned, Ltotal[setting], two_theta[pixel])
+#   binned_outer  bins broadcast along the geometry dims       (x[pixel] binned, Ltotal[setting], two_theta[tube])
+#   free          every operand on a random subset of the dims (tube, pixel, setting, tof) in random order
+OUTER_SHAPES = ['outer_1d', 'outer_2d', 'binned_2d', 'binned_outer', 'free']
+SHAPES = ['scalar', '1d', '2d_broadcast', 'per_pixel_2d', 'binned', 'transposed_2d'] + OUTER_SHAPES
+POOL = ('tube', 'pixel', 'setting', 'tof')
+FORCED_ROUNDS = ['slice', 'uniform', 'outer_1d', 'outer_2d', 'binned_2d', 'binned_outer']
+
+
+def _layout(rng, shape_cls, names, npix, nt):
+    """(dims, shape) per operand and whether the data operand is binned, for the OUTER_SHAPES."""
+    size = {'tube': int(rng.integers(1, 4)), 'pixel': npix, 'setting': int(rng.integers(2, 4)),
+            'tof': min(nt, 8)}
+    data = names[0]
+    if shape_cls == 'outer_1d':
+        d = {data: ['tof'], 'Ltotal': ['setting'], 'two_theta': ['pixel']}
+    elif shape_cls == 'outer_2d':
+        d = {data: ['pixel', 'tof'], 'Ltotal': ['pixel', 'setting'], 'two_theta': ['tube', 'pixel']}
+    elif shape_cls == 'binned_2d':
+        d = {data: ['setting', 'pixel'], 'Ltotal': ['setting'], 'two_theta': ['pixel']}
+    elif shape_cls == 'binned_outer':
+        d = {data: ['pixel'], 'Ltotal': ['setting'], 'two_theta': ['tube']}
+    else:
+        d = {n: [x for x in POOL if rng.random() < 0.5] for n in names}
+    out = {}
+    for n in names:
+        dims = list(d[n])
+        if len(dims) > 1 and rng.random() < 0.5:
+            dims = [dims[i] for i in rng.permutation(len(dims))]
+        out[n] = (dims, tuple(size[x] for x in dims))
+    binned = shape_cls in ('binned_2d', 'binned_outer') or (
+        shape_cls == 'free' and len(out[data][0]) > 0 and rng.random() < 0.3)
+    return out, binned
+
+
+def _non_nested(a, b):
+    a, b = set(a), set(b)
+    return bool(a - b) and bool(b - a)
 
 
 def _mk(values, dims, unit, dtype):
@@ -243,10 +306,16 @@ def gen_case(rng, ctx, kernel=None, force=None):
     slice_of_binned = None
     shape_cls = SHAPES[rng.integers(0, len(SHAPES))]
     npix, nt = int(rng.integers(1, 7)), int(rng.integers(1, 40))
-    if force:
+    if force in ('slice', 'uniform'):
         # deterministic part of every shard: each kernel sees binned data that is a slice of a larger binned
         # variable, and binned data with nearly uniform per-pixel geometry
         shape_cls, npix = 'binned', int(rng.integers(3, 7))
+    elif force:
+        # ... and every layout with operands on different, non-nested dims
+        shape_cls, npix, nt = force, int(rng.integers(2, 6)), int(rng.integers(2, 9))
+    layout, binned = None, shape_cls == 'binned'
+    if shape_cls in OUTER_SHAPES:
+        layout, binned = _layout(rng, shape_cls, names, npix, nt)
     data_name = names[0]
     r = rng.random()
     cls = 'float32' if r < 0.3 else ('int64' if r < 0.4 else 'float64')
@@ -267,7 +336,9 @@ def gen_case(rng, ctx, kernel=None, force=None):
         elif n == 'Q':
             unit = Q_UNITS[rng.integers(0, len(Q_UNITS))]
         # dims / size per shape class
-        if shape_cls == 'scalar':
+        if layout is not None:
+            dims, shape = layout[n]
+        elif shape_cls == 'scalar':
             dims, shape = [], ()
         elif shape_cls == '1d':
             dims, shape = (['tof'], (nt,)) if is_data else ([], ())
@@ -342,10 +413,11 @@ def gen_case(rng, ctx, kernel=None, force=None):
             else:
                 v = _as_unit(s, unit)
                 mags.append(int(np.floor(np.log10(np.nanmedian(s)) / 3)))
-        if shape_cls == 'binned' and is_data:
-            sizes = rng.integers(0, 12, size=npix)
+        if binned and is_data:
+            nbin = int(np.prod(shape))
+            sizes = rng.integers(0, 12 if nbin <= 8 else 5, size=nbin)
             if rng.random() < 0.3:
-                sizes[rng.integers(0, npix)] = 0
+                sizes[rng.integers(0, nbin)] = 0
             nev = int(sizes.sum())
             if n == 'two_theta':
                 ev = v
@@ -354,8 +426,8 @@ def gen_case(rng, ctx, kernel=None, force=None):
                 ev = np.maximum(np.rint(ev), 1).astype(np.int64)
             elif dt == 'float32':
                 ev = ev.astype(np.float32)
-            var = ops.make_binned(ev, sizes, ['pixel'], (npix,), unit, dtype=dt)
-            if npix >= 3 and (rng.random() < 0.3 or force == 'slice'):
+            var = ops.make_binned(ev, sizes, dims, shape, unit, dtype=dt)
+            if 'pixel' in dims and npix >= 3 and (rng.random() < 0.3 or force == 'slice'):
                 # a slice of a larger binned variable: begin/end no longer span the event buffer
                 lo_ = int(rng.integers(0, npix - 1))
                 hi_ = int(rng.integers(lo_ + 1, npix + 1))
@@ -372,16 +444,48 @@ def gen_case(rng, ctx, kernel=None, force=None):
         dtypes.append(dt)
     trivial = shape_cls == 'scalar' and all(d == 'float64' for d in dtypes) and all(
         u in ('s', 'm', 'J', 'rad', '1/m') for u in units)
-    sig = (kernel, tuple(dtypes), tuple(units), shape_cls, tuple(mags[:1]))
-    return {'kernel': kernel, 'kw': kw, 'sig': sig, 'trivial': trivial}
+    # relation between the dims of the operands (whatever class produced them)
+    od = {n: tuple(kw[n].dims) for n in names}
+    crossed = any(_non_nested(od[a], od[b]) for i, a in enumerate(names) for b in names[i + 1:])
+    if crossed:
+        ctx.hit('operands on different, non-nested dims (outer product)')
+    if len(names) == 3 and _non_nested(od[names[1]], od[names[2]]):
+        ctx.hit('Ltotal and two_theta on different, non-nested dims')
+    if ops.is_binned(kw[data_name]):
+        if len(od[data_name]) > 1:
+            ctx.hit('2-d bins')
+        if any(set(od[n]) - set(od[data_name]) for n in names[1:]):
+            ctx.hit('bins broadcast along a dim of a geometry operand')
+    if shape_cls in OUTER_SHAPES:
+        ctx.hit('layout ' + shape_cls)
+    sig = (kernel, tuple(dtypes), tuple(units), shape_cls + ('/crossed' if crossed else ''), tuple(mags[:1]))
+    return {'kernel': kernel, 'kw': kw, 'sig': sig, 'trivial': trivial, 'shape_cls': shape_cls}
 
 
 # ---------------------------------------------------------------- in situ ---
+_XDIMS = ('tof', 'wavelength', 'energy', 'dspacing', 'Q')
+
+
+def _xnorm(v):
+    # transform_coords renames the dim of a dimension-coordinate to the name of the target: one label for all
+    ren = {d: 'tof' for d in v.dims if d in _XDIMS and d != 'tof'}
+    return v.rename_dims(ren) if ren else v
+
+
 def _pair(ctx, name, a, b, tol, case):
-    ea, eb = ops.result_values(a).astype(si.LD), ops.result_values(b).astype(si.LD)
+    a, b = _xnorm(a), _xnorm(b)
+    ea = ops.result_values(a).astype(si.LD)
+    # the elements of b laid out like those of a (two routes need not return their dims in the same order; a
+    # round trip returns the union of the dims of its operands)
+    eb = (ops.result_values(b) if a.dims == b.dims else ops.align(b, a)).astype(si.LD)
     if ops.elem_unit(a) != ops.elem_unit(b):
         fb = si.factor(ops.elem_unit(b)) / si.factor(ops.elem_unit(a))
         eb = eb * fb
+    fin = np.isfinite(ea.astype(np.float64)) & np.isfinite(eb.astype(np.float64))
+    if not np.all(fin):
+        # elements with non-finite inputs (dead pixels): the kernel monitors decide those calls
+        ctx.count('route elements not finite on a route (not compared)', int(fin.size - np.count_nonzero(fin)))
+        ea, eb = ea[fin], eb[fin]
     err = si.relerr(ea, eb)
     worst = float(np.max(err)) if err.size else 0.0
     ctx.dev('route.' + ('f32:' if tol > 1e-8 else 'f64:') + name, worst)
@@ -391,43 +495,105 @@ def _pair(ctx, name, a, b, tol, case):
                       case, route=name)
 
 
-def routes_case(rng, ctx, scn):
-    """Drive all routes through the shipped graphs via convert()."""
+def direct_routes(ctx, K, kernel, kw, res):
+    """The other routes to the quantity a direct kernel call returned, on the same operands (used for the
+    layouts with operands on different dims, which convert() pipelines only reach in their simplest form)."""
+    f32 = ops.elem_dtype(kw[DATA_OPERAND[kernel]]) == sc.DType.float32
+    tol = 2 * (TOL32 if f32 else TOL64)
+    case = {'direct_routes': kernel, 'args': {n: _descr(v) for n, v in kw.items()}}
+    tt = kw.get('two_theta')
+    if kernel == 'dspacing_from_tof':
+        lam = K.wavelength_from_tof(tof=kw['tof'], Ltotal=kw['Ltotal'])
+        _pair(ctx, 'direct.tof->d vs tof->lambda->d', res, K.dspacing_from_wavelength(wavelength=lam, two_theta=tt),
+              tol, case)
+        e = K.energy_from_tof(tof=kw['tof'], Ltotal=kw['Ltotal'])
+        _pair(ctx, 'direct.tof->d vs tof->E->d', res, K.dspacing_from_energy(energy=e, two_theta=tt), tol, case)
+    elif kernel == 'energy_from_tof':
+        lam = K.wavelength_from_tof(tof=kw['tof'], Ltotal=kw['Ltotal'])
+        _pair(ctx, 'direct.tof->E vs tof->lambda->E', res, K.energy_from_wavelength(wavelength=lam), tol, case)
+    elif kernel == 'wavelength_from_tof':
+        e = K.energy_from_tof(tof=kw['tof'], Ltotal=kw['Ltotal'])
+        _pair(ctx, 'direct.tof->lambda vs tof->E->lambda', res, K.wavelength_from_energy(energy=e), tol, case)
+    elif kernel == 'energy_from_wavelength':
+        _pair(ctx, 'direct.lambda->E->lambda', K.wavelength_from_energy(energy=res), kw['wavelength'], tol, case)
+    elif kernel == 'wavelength_from_energy':
+        _pair(ctx, 'direct.E->lambda->E', K.energy_from_wavelength(wavelength=res), kw['energy'], tol, case)
+    elif kernel == 'Q_from_wavelength':
+        _pair(ctx, 'direct.lambda->Q->lambda', K.wavelength_from_Q(Q=res, two_theta=tt), kw['wavelength'], tol, case)
+    elif kernel == 'wavelength_from_Q':
+        _pair(ctx, 'direct.Q->lambda->Q', K.Q_from_wavelength(wavelength=res, two_theta=tt), kw['Q'], tol, case)
+    elif kernel == 'dspacing_from_energy':
+        lam = K.wavelength_from_energy(energy=kw['energy'])
+        _pair(ctx, 'direct.E->d vs E->lambda->d', res, K.dspacing_from_wavelength(wavelength=lam, two_theta=tt),
+              tol, case)
+    elif kernel == 'dspacing_from_wavelength':
+        # Q * d = 2 pi on the observed values
+        q = K.Q_from_wavelength(wavelength=kw['wavelength'], two_theta=tt)
+        qv = ops.result_values(q).astype(si.LD) * si.factor(ops.elem_unit(q))
+        dv = ops.align(res, q).astype(si.LD) * si.factor(ops.elem_unit(res))
+        prod = qv * dv
+        fin = np.isfinite(prod.astype(np.float64))
+        err = si.relerr(prod[fin], np.full(prod[fin].shape, 2 * si.PI))
+        worst = float(np.max(err)) if err.size else 0.0
+        ctx.dev('route.' + ('f32:' if f32 else 'f64:') + 'direct.Q*d=2pi', worst)
+        ctx.event('route.direct.Q*d=2pi')
+        if worst > tol:
+            ctx.violation('route_disagreement', f'direct: Q*d differs from 2 pi by {worst:.3g}', case,
+                          route='direct.Q*d')
+
+
+def routes_case(rng, ctx, scn, force=None):
+    """Drive all routes through the shipped graphs via convert().
+
+    ``crossed``: Ltotal depends on a dim ``setting`` only and two_theta on ``pixel`` only (a bank on a sphere
+    around the sample measured with several source settings), so the two geometry coordinates sit on different
+    dims and every kernel has to return their outer product."""
     npix, nt = int(rng.integers(1, 6)), int(rng.integers(2, 30))
     f32 = rng.random() < 0.3
     binned = rng.random() < 0.35
+    crossed = rng.random() < 0.25
+    if force:
+        crossed, binned = True, force == 'crossed_binned'
+    nset = int(rng.integers(2, 4)) if crossed else None
+    if crossed:
+        npix, nt = max(npix, 2), min(nt, 12)
     tunit = ['us', 'ms', 'ns', 's'][rng.integers(0, 2 if f32 else 4)]
     lunit = ['m', 'mm', 'cm', 'km'][rng.integers(0, 3 if f32 else 4)]
     t_si = _draw_si(rng, npix * nt, 1e-6, 1e-1) if f32 else _draw_si(rng, npix * nt, 1e-7, 1e3)
-    l_si = _draw_si(rng, npix, 0.1, 1e3)
+    l_si = _draw_si(rng, nset if crossed else npix, 0.1, 1e3)
     tt = _angles(rng, npix, ctx)
     if f32:
         tt = np.clip(tt, 1e-3, np.pi - 1e-3)
     dt = 'float32' if f32 else 'float64'
     tol = 2 * (TOL32 if f32 else TOL64)
     coords = {
-        'Ltotal': sc.array(dims=['pixel'], values=_as_unit(l_si, lunit), unit=lunit),
+        'Ltotal': sc.array(dims=['setting' if crossed else 'pixel'], values=_as_unit(l_si, lunit), unit=lunit),
         'two_theta': sc.array(dims=['pixel'], values=tt, unit='rad'),
     }
+    odims, oshape = (['setting', 'pixel'], [nset, npix]) if crossed else (['pixel'], [npix])
     if binned:
-        sizes = rng.integers(0, 2 * nt // npix + 2, size=npix)
+        sizes = rng.integers(0, 2 * nt // npix + 2, size=int(np.prod(oshape)))
+        if force and not sizes.sum():
+            sizes[0] = 3
         nev = int(sizes.sum())
         tv = np.resize(_as_unit(t_si, tunit), nev).astype(dt)
         ev = sc.DataArray(sc.ones(dims=['event'], shape=[nev], unit='counts'),
                           coords={'tof': sc.array(dims=['event'], values=tv, unit=tunit, dtype=dt)})
         end = np.cumsum(sizes)
-        da = sc.DataArray(sc.bins(begin=sc.array(dims=['pixel'], values=end - sizes, unit=None),
-                                  end=sc.array(dims=['pixel'], values=end, unit=None),
+        da = sc.DataArray(sc.bins(begin=sc.array(dims=odims, values=(end - sizes).reshape(oshape), unit=None),
+                                  end=sc.array(dims=odims, values=end.reshape(oshape), unit=None),
                                   dim='event', data=ev), coords=coords)
         if nev == 0:
             return None
     else:
         tof = sc.array(dims=['pixel', 'tof'], values=_as_unit(t_si, tunit).reshape(npix, nt),
                        unit=tunit, dtype=dt)
-        da = sc.DataArray(sc.ones(dims=['pixel', 'tof'], shape=[npix, nt]),
+        da = sc.DataArray(sc.ones(dims=[*odims, 'tof'], shape=[*oshape, nt]),
                           coords={**coords, 'tof': tof})
+    if crossed:
+        ctx.hit('convert: Ltotal and two_theta coordinates on different dims, ' + ('binned' if binned else 'dense'))
     case = {'in_situ': 'routes', 'f32': f32, 'binned': binned, 'tunit': tunit, 'lunit': lunit,
-            'npix': npix, 'nt': nt}
+            'npix': npix, 'nt': nt, 'crossed_nset': nset}
 
     def co(d, name):
         return d.bins.coords[name] if binned else d.coords[name]
@@ -465,8 +631,9 @@ def routes_case(rng, ctx, scn):
     lam_q = conv(q, 'Q', 'wavelength', scatter=True)
     _pair(ctx, 'lambda->Q->lambda', co(lam, 'wavelength'), co(lam_q, 'wavelength'), tol, case)
     # Q*d = 2 pi, on the observed values
-    qv = ops.result_values(co(q, 'Q')).astype(si.LD)
-    dv = ops.result_values(co(d_lam, 'dspacing')).astype(si.LD)
+    qa, da_ = _xnorm(co(q, 'Q')), _xnorm(co(d_lam, 'dspacing'))
+    qv = ops.result_values(qa).astype(si.LD)
+    dv = (ops.result_values(da_) if da_.dims == qa.dims else ops.align(da_, qa)).astype(si.LD)
     prod = qv * dv
     err = si.relerr(prod, np.full(prod.shape, 2 * si.PI))
     worst = float(np.max(err)) if err.size else 0.0
@@ -494,10 +661,14 @@ def routes_case(rng, ctx, scn):
         if start != 'tof':
             want = conv(src, start, target, scatter=True)
         _pair(ctx, f'graph.{fname}({start})->{target} vs convert', co(out, target), co(want, target), tol, case)
-    return ('routes', dt, tunit, lunit, 'binned' if binned else 'dense')
+    return ('routes', dt, tunit, lunit, ('binned' if binned else 'dense') + ('/crossed' if crossed else ''))
 
 
 # ------------------------------------------------------------------ driver ---
+DIRECT_ROUTES = ['direct.tof->d vs tof->lambda->d', 'direct.tof->d vs tof->E->d', 'direct.tof->E vs tof->lambda->E',
+                 'direct.tof->lambda vs tof->E->lambda', 'direct.lambda->E->lambda', 'direct.E->lambda->E',
+                 'direct.lambda->Q->lambda', 'direct.Q->lambda->Q', 'direct.E->d vs E->lambda->d',
+                 'direct.Q*d=2pi']
 def plan(tier, seed):
     n_shards = 16
     calls = 300 if tier == 'quick' else 8000
@@ -508,10 +679,17 @@ def plan(tier, seed):
 def requirements(tier):
     ev = {k: 20 for k in OPERANDS}
     ev.update({'route.Q*d=2pi': 20, 'route.lambda->E->lambda': 20})
+    ev.update({'route.' + r: 16 for r in DIRECT_ROUTES})
     return {'events': ev,
             'forced': ['two_theta<1e-9', 'two_theta within 1e-12 of pi', 'two_theta == pi',
                        'integer geometry operand', 'binned operand is a slice of a larger one',
-                       'nearly uniform per-pixel geometry', 'dead pixel (NaN geometry)']
+                       'nearly uniform per-pixel geometry', 'dead pixel (NaN geometry)',
+                       'operands on different, non-nested dims (outer product)',
+                       'Ltotal and two_theta on different, non-nested dims',
+                       '2-d bins', 'bins broadcast along a dim of a geometry operand',
+                       'convert: Ltotal and two_theta coordinates on different dims, dense',
+                       'convert: Ltotal and two_theta coordinates on different dims, binned']
+            + ['layout ' + c for c in OUTER_SHAPES]
             + ['angle unit ' + u for u in sorted(set(ANG_UNITS))]}
 
 
@@ -539,23 +717,32 @@ def run(shard, ctx):
         kernels = list(OPERANDS)
         for i in range(shard['calls']):
             nk = len(kernels)
-            if i < 2 * nk:
-                case = gen_case(rng, ctx, kernels[i % nk], force='slice' if i < nk else 'uniform')
+            if i < len(FORCED_ROUNDS) * nk:
+                case = gen_case(rng, ctx, kernels[i % nk], force=FORCED_ROUNDS[i // nk])
             else:
-                case = gen_case(rng, ctx, kernels[i % nk] if i < 4 * nk else None)
+                case = gen_case(rng, ctx, kernels[i % nk] if i < (len(FORCED_ROUNDS) + 2) * nk else None)
             before = ctx.n_violations
+            res = None
             try:
-                getattr(K, case['kernel'])(**case['kw'])
+                res = getattr(K, case['kernel'])(**case['kw'])
             except Exception:  # noqa: BLE001  (already judged by the monitor via PY_UNWIND)
                 pass
+            if res is not None and case['shape_cls'] in OUTER_SHAPES:
+                # operands on different dims: the other routes to the same quantity, on the same operands
+                mid = ctx.n_violations
+                try:
+                    direct_routes(ctx, K, case['kernel'], case['kw'], res)
+                except Exception:  # noqa: BLE001
+                    if ctx.n_violations == mid:  # not a kernel that raised (the monitor has judged that)
+                        ctx.oracle_error('C01 direct routes')
             ctx.case(case['sig'], trivial=case['trivial'])
             if i < 2 or ctx.n_violations > before:
                 ctx.sample({'kernel': case['kernel'], 'sig': case['sig'],
                             'args': {n: _descr(v) for n, v in case['kw'].items()}})
         origin['v'] = 'convert'
-        for _ in range(shard['routes']):
+        for j in range(shard['routes']):
             try:
-                sig = routes_case(rng, ctx, scn)
+                sig = routes_case(rng, ctx, scn, force={0: 'crossed_dense', 1: 'crossed_binned'}.get(j))
             except Exception as e:  # noqa: BLE001
                 ctx.violation('convert_raised', f'convert raised {type(e).__name__}: {e}',
                               {'in_situ': 'routes'})
